@@ -248,6 +248,10 @@ func registryFaultCase(c *kit.Case) {
 			break
 		}
 		// the client can be created now
+		if r.Chance(0.4) {
+			subscribeByHand(c, h, g, scen, "created after the etcd client could not be created for earlier subscribers", nil)
+			break
+		}
 		subscribe("S0")
 		someOps(r.Range(1, 4))
 		if r.Bool() && !h.dead {
@@ -375,14 +379,18 @@ func registryFaultCase(c *kit.Case) {
 			h.log = append(h.log, "(nobody subscribes) "+h.descr(o))
 			h.f.apply(o)
 		}
-		if r.Chance(0.3) {
+		c.Obs("resubscriptions_after_close", 1)
+		switch r.Pick(2, 4, 4) {
+		case 0:
 			h.note("resolver-build", "BUILD discov resolver on the key nobody subscribes to any more")
 			h.addResolver("R")
 			h.sync()
-		} else {
+		case 1:
 			subscribe("S1")
+		default:
+			subscribeByHand(c, h, g, scen, "created after the only subscriber of the key was closed", nil)
+			h.dead = true // the hand-made subscriber is closed again; the history ends here
 		}
-		c.Obs("resubscriptions_after_close", 1)
 		someOps(r.Range(1, 4))
 		h.reload(r.Intn(4), r.Range(0, 3), g.anyOp)
 		someOps(r.Range(0, 2))
@@ -504,12 +512,50 @@ func closeDuringLoad(c *kit.Case, h *hist, g *gen) {
 		h.log = append(h.log, "(nobody subscribes) "+h.descr(o))
 		h.f.apply(o)
 	}
+	c.Obs("close_during_load_histories", 1)
+	subscribeByHand(c, h, g, scen, "created after S0 was closed during a snapshot load",
+		map[string]any{"go_zero_rewatched_without_subscribers": rewatched})
+}
+
+// hasLive: the scripted etcd is serving a watch stream for wk right now.
+func (f *fakeEtcd) hasLive(wk wkey) bool {
+	f.mu.Lock()
+	defer f.mu.Unlock()
+	fe := f.feeds[wk]
+	return fe != nil && fe.cur != nil && !fe.cur.dead
+}
+
+var handSeq int
+
+// subscribeByHand creates a plain subscriber S1 on the history's endpoint/key at a point
+// where no other subscriber of the key is open, and compares it with the store after it
+// was created and after each of a few further registry events (plain set comparison;
+// synchronised by a marker followed by a progress notification on the live stream).
+// It is used where the question is whether go-zero serves the new subscriber from a load
+// of its own or attaches it to a watcher that is still around - which hist.addSub cannot
+// follow. Three situations after NewSubscriber returned:
+//
+//	a Get was made           -> fresh load; its Watch call is awaited
+//	no Get, a stream is live -> attached to a running watch
+//	no Get, no live stream   -> attached to a watcher nobody watches for. If moreover no
+//	                            goroutine spawned on behalf of this NewSubscriber exists
+//	                            (pprof label) nobody ever will: the comparison is made at
+//	                            once, without a barrier (nothing can be in flight)
+func subscribeByHand(c *kit.Case, h *hist, g *gen, scen, how string, extra map[string]any) {
+	r := c.R
+	handSeq++
+	label := fmt.Sprintf("%s#hand%d", c.ID, handSeq)
 	g2, w2, _ := h.f.totals()
 	var sub *discov.Subscriber
 	var err error
+	var pv any
 	h.log = append(h.log, "SUBSCRIBE S1 plain (same endpoint, same key)")
-	if pv := guard(func() { sub, err = discov.NewSubscriber([]string{h.ep}, h.prefix) }); pv != nil {
-		h.panicViol(s0, "NewSubscriber after close-during-load", pv)
+	kit.WithLabel(label, func() {
+		pv = guard(func() { sub, err = discov.NewSubscriber(h.endpoints(), h.prefix) })
+	})
+	ghost := &subRec{name: "S1", mode: "plain", wk: h.pwk}
+	if pv != nil {
+		h.panicViol(ghost, "NewSubscriber ("+scen+")", pv)
 		return
 	}
 	if err != nil {
@@ -519,15 +565,25 @@ func closeDuringLoad(c *kit.Case, h *hist, g *gen) {
 		return
 	}
 	defer guard(sub.Close)
-	if g3, _, _ := h.f.totals(); g3 > g2 {
-		// served by a load of its own: wait for the watch that follows it
+	barrier := true
+	switch g3, _, _ := h.f.totals(); {
+	case g3 > g2:
 		c.Obs("resubscriptions_served_by_fresh_load", 1)
 		if !h.f.waitTotals(g3, w2+1) {
 			h.inconclusive("watchdog: no Watch after the load of the new subscriber")
 			return
 		}
-	} else {
+	case h.f.hasLive(h.pwk):
 		c.Obs("resubscriptions_attached_to_running_watch", 1)
+	default:
+		c.Obs("resubscriptions_attached_to_unwatched_watcher", 1)
+		if len(kit.LabelledGoroutines(label)) == 0 && len(kit.LabelledGoroutines(label)) == 0 && !h.f.hasLive(h.pwk) {
+			barrier = false
+			h.log = append(h.log, "(go-zero made no Get for S1, serves no watch for the key and started no goroutine for S1)")
+		} else if h.f.waitLive(h.pwk, 0) != wlLive {
+			h.inconclusive("watchdog: no served watch for the key after NewSubscriber returned without loading")
+			return
+		}
 	}
 	check := func(step string) bool {
 		h.markerN++
@@ -537,7 +593,7 @@ func closeDuringLoad(c *kit.Case, h *hist, g *gen) {
 		}
 		h.f.apply(op{k: mk, v: mv})
 		h.markerKey = mk
-		if !h.f.progress(h.pwk) {
+		if barrier && !h.f.progress(h.pwk) {
 			h.inconclusive("watchdog: progress notification not received on the live stream after " + step)
 			return false
 		}
@@ -546,11 +602,11 @@ func closeDuringLoad(c *kit.Case, h *hist, g *gen) {
 		plain := &mirror{wk: h.pwk}
 		got, pv := safeValues(sub)
 		if pv != nil {
-			h.panicViol(s0, "Values()", pv)
+			h.panicViol(ghost, "Values()", pv)
 			return false
 		}
 		mms := plain.compare(store, got)
-		if len(mms) > 0 {
+		if len(mms) > 0 && barrier {
 			// belt and braces: once more behind a second notification
 			if !h.f.progress(h.pwk) {
 				h.inconclusive("watchdog: second progress notification not received")
@@ -570,13 +626,16 @@ func closeDuringLoad(c *kit.Case, h *hist, g *gen) {
 				continue
 			}
 			seen[key] = true
-			c.Viol(key, fmt.Sprintf("plain subscriber S1, created after S0 was closed during a snapshot load: value %q is %s after %q", mm.val, mm.kind, step),
-				map[string]any{"endpoint": h.ep, "watched_key": h.prefix, "steps": h.log, "got": got, "registered_now": store,
-					"etcd_calls_on_this_watch": h.f.callLog(h.pwk), "go_zero_rewatched_without_subscribers": rewatched})
+			w := map[string]any{"endpoint": h.ep, "watched_key": h.prefix, "steps": h.log, "got": got, "registered_now": store,
+				"etcd_calls_on_this_watch": h.f.callLog(h.pwk), "synchronised_by_progress_notification": barrier}
+			for k, v := range extra {
+				w[k] = v
+			}
+			c.Viol(key, fmt.Sprintf("plain subscriber S1, %s: value %q is %s after %q", how, mm.val, mm.kind, step), w)
 		}
 		return false
 	}
-	c.Obs("close_during_load_histories", 1)
+	c.Obs("subscribers_created_by_hand", 1)
 	if !check("SUBSCRIBE S1") {
 		return
 	}
